@@ -201,7 +201,7 @@ def coq_make(targets, timeout=3000):
     """Full .vo build of the given targets (never -vos). Returns (ok, log)."""
     with Lock():
         coq_makefile()
-        rc, out = sh(["timeout", str(timeout), "make", "-j16"] + targets, cwd=COQ, timeout=timeout + 30)
+        rc, out = sh(["timeout", "-k", "5", str(timeout), "make", "-j16"] + targets, cwd=COQ, timeout=timeout + 30)
     return rc == 0, out
 
 
@@ -245,11 +245,14 @@ def forbidden_scan():
 
 
 def prove(ctx, prop_file, extra_targets=()):
-    """Translate, build, and check the theorem file of a property. Returns a dict:
-    ok, stage ('translate' | 'build' | 'forbidden' | ''), log, obligations, discharged,
-    axioms."""
+    """Translate, build, and check the theorem file(s) of a property (a path or a list of
+    paths relative to coq/). Returns a dict: ok, stage ('translate' | 'build' | 'forbidden' |
+    ''), log, obligations, discharged, axioms."""
+    files = [prop_file] if isinstance(prop_file, str) else list(prop_file)
     res = {"ok": False, "stage": "", "log": "", "obligations": 0, "discharged": 0, "axioms": []}
-    names = theorem_names(prop_file)
+    names = []
+    for f in files:
+        names += theorem_names(f)
     res["obligations"] = len(names)
     res["names"] = names
     ok, out = translate(ctx)
@@ -260,21 +263,25 @@ def prove(ctx, prop_file, extra_targets=()):
     if bad:
         res.update(stage="forbidden", log="\n".join(bad))
         return res
-    target = prop_file[:-2] + ".vo"
-    ok, out = coq_make([target] + list(extra_targets))
+    targets = [f[:-2] + ".vo" for f in files]
+    ok, out = coq_make(targets + list(extra_targets))
     if not ok:
         res.update(stage="build", log=out[-6000:])
         m = re.search(r'File "\./([^"]+)", line (\d+)', out)
         res["failed_at"] = (m.group(1) + ":" + m.group(2)) if m else "?"
         return res
-    # re-run the theorem file itself so that Print Assumptions output is captured now
-    with Lock():
-        ok, out = coqc_file(prop_file)
-    if not ok:
-        res.update(stage="build", log=out[-6000:], failed_at=prop_file)
-        return res
-    axioms, closed = parse_assumptions(out)
-    res.update(ok=True, discharged=len(names), axioms=axioms, closed=closed)
+    # re-run the theorem files themselves so that Print Assumptions output is captured now
+    axioms, closed = set(), 0
+    for f in files:
+        with Lock():
+            ok, out = coqc_file(f)
+        if not ok:
+            res.update(stage="build", log=out[-6000:], failed_at=f)
+            return res
+        a, c = parse_assumptions(out)
+        axioms |= set(a)
+        closed += c
+    res.update(ok=True, discharged=len(names), axioms=sorted(axioms), closed=closed)
     return res
 
 
